@@ -186,6 +186,14 @@ pub fn run_c06(out: &mut Out, seed: u64, thorough: bool) {
     for src in undefined_label_programs() {
         directed(out, &src);
     }
+    // a name bound more than once (label repeated at another address, other letter case, label after .EQU and the other
+    // way round): accepted by the parser, so translation and loading must not panic
+    for (d1, d2) in [("nm:", "nm:"), ("nm:", "NM:"), ("Nm:", "nM:"), (".EQU nm 7", "NM:"), ("nm:", ".EQU NM 9"), (".EQU nm 1", ".EQU Nm 2")] {
+        for r in ["JR nm", "JMP nm", "LD R0, nm", "ST (NM), R1", "NOP"] {
+            directed(out, &format!("#! mrasm\n NOP\n{}\n INC R0\n {}\n{}\n INC R1\n STOP", d1, r, d2));
+            directed(out, &format!("#! mrasm\n{}\n{}\n {}", d1, d2, r));
+        }
+    }
 }
 
 /// Every operand position that can carry a label, with a label that is defined nowhere (`missing`
